@@ -112,7 +112,7 @@ Inductive cmode :=
 | CCycle (n : Z)                               (* default palette / explicit list: entry k mod n *)
 | CMapZ (numeric : bool) (lo hi : option Z)    (* colors=True: the z coordinate (numeric), else evenly spaced *)
 | CMapC (cvar : Z) (lo hi : option Z)          (* c=<variable> on lines: one value per series *)
-| CPoints (cvar : Z).                          (* c=<variable> on scatter: one value per point, scaled per series *)
+| CPoints (cvar : Z) (lo hi : option Z).       (* c=<variable> on scatter: one value per point, same scale *)
 
 Definition canon_at (canon : list Z) (i : Z) : Z := nth (Z.to_nat i) canon (-1).
 
@@ -149,7 +149,7 @@ Record series := mkser {
 
 Definition ovar_dims (ds : dset) (o : option Z) : list (list Z) :=
   match o with Some v => [v_dims (the_var ds v)] | None => [] end.
-Definition cpoint_var (m : cmode) : option Z := match m with CPoints v => Some v | _ => None end.
+Definition cpoint_var (m : cmode) : option Z := match m with CPoints v _ _ => Some v | _ => None end.
 
 (* free dimensions of one series: broadcast of x, y, c, y_err, x_err minus what is selected *)
 Definition free_dims (sp : spec) (sel : env) (yv : Z) : list Z :=
@@ -179,11 +179,25 @@ Definition series_color (sp : spec) (sel : env) (k : nat) : option Z :=
       | Fin c => Some (canon_at (p_canon sp) (lut_index (p_N sp) (norm_lo ds cv lo) (norm_hi ds cv hi) c))
       | NonFin => Some (canon_at (p_canon sp) (lut_bad (p_N sp)))
       end
-  | CPoints _ => None
+  | CPoints _ _ _ => None
   end.
 
-(* scatter(c=array, cmap=...) without a norm: matplotlib scales each collection to its own range *)
+(* scatter(c=array, cmap=..., norm=the plot's colour norm): every point on the scale of the colour bar,
+   i.e. vmin / vmax, else zlims, else the range of the whole variable *)
 Definition point_colors (sp : spec) (cs : list cell) : list Z :=
+  match p_cmode sp with
+  | CPoints cv lo hi =>
+      map (fun c => match c with
+                    | Fin i => canon_at (p_canon sp)
+                                 (lut_index (p_N sp) (norm_lo (p_ds sp) cv lo) (norm_hi (p_ds sp) cv hi) i)
+                    | NonFin => canon_at (p_canon sp) (lut_bad (p_N sp))
+                    end) cs
+  | _ => []
+  end.
+
+(* what the code did before the repair: no norm was passed, matplotlib scaled each collection to the
+   range of its own drawn values (kept to document that the machinery tells the two apart) *)
+Definition point_colors_old (sp : spec) (cs : list cell) : list Z :=
   let ids := fin_ids cs in
   let lo := odflt (zmin_list ids) 0 in
   let hi := odflt (zmax_list ids) 1 in
